@@ -205,6 +205,7 @@ func (o *OvsdbServer) Transact(client *rpc2.Client, args []json.RawMessage, repl
 		ops = append(ops, op)
 	}
 	response, updates := o.transact(db, ops)
+	verifPoint("transact.executed")
 	*reply = response
 	for _, operResult := range response {
 		if operResult.Error != "" {
